@@ -295,6 +295,8 @@ def _compare(case, E, real):
                 if ef["value"] != Mo.ANY and gf["value"] != ef["value"]:
                     return fail("%s:value-differs" % tag, stream=s, form=i, expected=ef["value"], actual=gf["value"])
         if got["status"] != exp["status"]:
+            if got["status"] == "not-run":
+                return fail("%s:not-run" % tag, stream=s, expected=exp["status"], note="the stream that launches it stopped early")
             if exp["status"] == "syntax-error":
                 return fail("%s:missing-syntax-error:%s" % (tag, exp["err"]["why"]), stream=s, expected=exp["err"], actual=got["status"],
                             forms=got["forms"][len(exp["forms"]):][:2], final=got["final"])
